@@ -412,3 +412,153 @@ def outer_comment(c0: int, c1: int, c2: int) -> Tuple[str, str]:
     text = "~" + cpick(c0) + cpick(c1) + cpick(c2) + "~ " + PATHTXT
     path2, comment = mp.extract_csvpath_and_comment(text)
     return (path2.strip(), comment.strip())
+
+
+# ------------------------------------------------------------------ O1c: the tree built by the transformer equals the source
+FUNCS = ["yes", "not", "concat.onmatch", "any"]
+
+
+def _flatten(node):
+    """the component tree built by LarkTransformer, written back as (token kind, value) pairs in source order"""
+    from csvpath.matching.productions import Equality, Variable, Term, Expression, Header, Reference
+    from csvpath.matching.functions.function import Function
+
+    def qn(n):
+        return n.name + "".join("." + q for q in (n.qualifiers or []))
+
+    if isinstance(node, Expression):
+        return _flatten(node.children[0])
+    if isinstance(node, Equality):
+        if node.op == ",":
+            out = []
+            for i, c in enumerate(node.children):
+                if i:
+                    out.append(("COMMA", ","))
+                out += _flatten(c)
+            return out
+        tok = {"->": ("WHEN", "->"), "==": ("EQUALS", "=="), "=": ("ASSIGN", "=")}[node.op]
+        return _flatten(node.left) + [tok] + _flatten(node.right)
+    if isinstance(node, Function):
+        inner = []
+        if node.children:
+            inner = _flatten(node.children[0])
+        return [("__ANON_0", qn(node)), ("LP", "(")] + inner + [("RP", ")")]
+    if isinstance(node, Header):
+        return [("HEADER", "#" + qn(node))]
+    if isinstance(node, Variable):
+        return [("VARIABLE", "@" + qn(node))]
+    if isinstance(node, Reference):
+        return [("REFERENCE", "$" + qn(node))]
+    if isinstance(node, Term):
+        v = node.value
+        if isinstance(v, bool) or v is None:
+            return [("TERM?", repr(v))]
+        if isinstance(v, (int, float)):
+            return [("SIGNED_NUMBER", v)]
+        if len(v) >= 2 and v[0] == "/" and v[-1] == "/":
+            return [("REGEX", v)]
+        return [("STRING", v)]
+    return [("?", repr(node))]
+
+
+def _source_leaves(tree):
+    out = []
+    for t in tree.scan_values(lambda v: True):
+        if t.type == "COMMENT":
+            continue
+        if t.type == "STRING":
+            out.append(("STRING", t.value[1:-1]))
+        elif t.type == "HEADER" and t.value.startswith('#"'):
+            out.append(("HEADER", "#" + t.value[2:-1]))  # a quoted header name is the text between the quotes
+        elif t.type == "SIGNED_NUMBER":
+            out.append(("SIGNED_NUMBER", float(t.value) if ("." in t.value or "e" in t.value.lower()) else int(t.value)))
+        else:
+            out.append((t.type, t.value))
+    return out
+
+
+def tree_vs_source(text):
+    """-> '' if the component tree says what the text says, else what differs"""
+    from csvpath.matching.lark_transformer import LarkTransformer
+
+    tree = LarkParser().parser.parse(text)
+    if any(getattr(t, "data", None) == "_ambig" for t in tree.iter_subtrees()):
+        return "ambiguous"
+    src = _source_leaves(tree)
+    tr = _transformer()
+    es = tr.transform(tree)
+    got = []
+    for e in es:
+        got += _flatten(e)
+    if got != src:
+        return f"source says {src} but the component tree says {got}"
+    return ""
+
+
+@ob(
+    "C17",
+    "O1c-tree-equals-source",
+    kind="query",
+    bound="for every grammatical match part T of <= N tokens z3 produces a text of L(T) (function names restricted to real "
+    "functions, variable/header/reference names to the documented word forms, strings, regexes, numbers and comments free); the text is parsed by the real parser and transformed by the real LarkTransformer; the "
+    "component tree written back in source order must equal the token sequence of the text: kinds, names, qualifiers, operators, "
+    "argument order, literal values. One solver-made program per match part (translation validation of the transformer on "
+    "solver-generated programs; the solver step is the generation, the comparison is concrete)",
+    outside="more than one text per match part; exponent notation in numbers; arity checks",
+    encodes=["csvpath/matching/lark_transformer.py:LarkTransformer (all rule and token callbacks)", "csvpath/matching/functions/function_factory.py:FunctionFactory.get_function",
+             "csvpath/matching/productions/*.py constructors", "csvpath/matching/lark_parser.py:LarkParser.GRAMMAR"],
+    tiers={"quick": {"timeout": 900, "K": {"N": 7}, "shards": product(part=list(range(16)), of=[16])},
+           "thorough": {"timeout": 3000, "K": {"N": 8}, "shards": product(part=list(range(16)), of=[16])}},
+)
+def tree_equals_source(tier, cfg, shard, carve):
+    n = cfg["K"]["N"]
+    ms = matches_upto(n)
+    lg = Lang()
+    # function names must exist for the transformer: restrict the NAME terminal to a few real functions (with a qualifier)
+    lg.T["__ANON_0"] = z3.Union(*[z3.Re(f) for f in FUNCS])
+    # names as the docs allow them (a name does not start with a period; qualifiers are dot-separated words)
+    word = r"[a-zA-Z][a-zA-Z0-9_]*"
+    lg.T["VARIABLE"] = regex2z3.rx(r"@" + word + r"(\." + word + r")?")
+    lg.T["HEADER"] = regex2z3.rx(r"#(" + word + r"(\." + word + r")?|[0-9]+|\"[a-zA-Z][a-zA-Z0-9 _]*\")")
+    lg.T["REFERENCE"] = regex2z3.rx(r"\$" + word + r"\.(variables|headers)\." + word)
+    lg.T["SIGNED_NUMBER"] = regex2z3.rx(r"(\+|\-)?([0-9]+\.[0-9]*|\.[0-9]+|[0-9]+)")  # no exponent notation (stated as outside)
+    x = z3.String("x")
+    flats = [lg.flat(m) for m in ms]
+    mine = flats[shard["part"]::shard["of"]]
+    q = 0
+    zs = 0.0
+    t0 = time.time()
+    witness = None
+    checked = 0
+    for f in mine:
+        if time.time() - t0 > cfg["timeout"]:
+            return {"verdict": "CANNOT_CONFIRM", "message": "time-out", "z3_queries": q, "z3_s": round(zs, 2), "paths": checked, "cex": None}
+        s = z3.Solver()
+        s.set("timeout", 60000)
+        s.add(z3.InRe(x, lg.lang(f)))
+        t = time.time()
+        r = s.check()
+        zs += time.time() - t
+        q += 1
+        if str(r) != "sat":
+            return {"verdict": "CANNOT_CONFIRM", "message": f"no text for {f}: {r}", "z3_queries": q, "z3_s": round(zs, 2), "paths": checked, "cex": None}
+        text = s.model()[x].as_string()
+        if witness is None:
+            witness = {"match": [t_ for t_, _ in f], "text": text}
+        try:
+            diff = tree_vs_source(text)
+        except Exception as e:
+            diff = "raised " + repr(e)[:300]
+        checked += 1
+        if diff:
+            return {"verdict": "SAT", "message": diff[:500], "cex": {"text": text}, "z3_queries": q, "z3_s": round(zs, 2), "paths": checked, "witness": witness}
+    return {"verdict": "UNSAT", "message": "", "cex": None, "z3_queries": q, "z3_s": round(zs, 2), "paths": checked, "witness": witness,
+            "engine": "z3 regular-language models + real parser/transformer", "extra": {"programs": checked, "N": n}}
+
+
+def replay_tree_equals_source(args):
+    try:
+        d = tree_vs_source(args["text"])
+    except Exception as e:
+        d = "raised " + repr(e)[:300]
+    return (bool(d), f"{args['text']!r}: {d or 'tree equals source'}")
